@@ -27,6 +27,7 @@ EXPLANATION = (
     "term is the walker itself and the same one-body half step is applied on both sides. "
     "KEYS-1: the phaseless constant 'h0_prop' built by the propagation builders does not contain the "
     "free-projection energy zero 'ene0'. "
+    " PATH-1: hamiltonian.build_propagation_intermediates / build_measurement_intermediates hand back, on every path, what the propagator's / trial's builder returns for the current ham_data (no 'already prepared' shortcut that keeps the intermediates of the previous Hamiltonian). GUARD-1 (field shift): in the Gaussian-ratio term sum(x f - f f / 2) of the importance function the raw fields x are multiplied by the very shift f that is subtracted from them before the Trotter step. "
 )
 NOT_DECIDED = (
     "the whole first sentence of the property: the Gaussian field average, the mean-field subtraction "
@@ -117,8 +118,13 @@ def run(ctx):
             wn = strip_wrappers(call_parts(numI)[1][0])
             if wn.op == "call" and wn.args[0].op == "attr" and wn.args[0].args[1] == "_apply_trotprop":
                 _, pos, _ = call_parts(wn)
-                w_old = pos[1] if len(pos) > 1 else None
-                shifted = pos[2] if len(pos) > 2 else None
+                # by the parameter they bind to (walkers / fields of the class's Trotter step), wherever those stand
+                b_ = run_.ev.call_binding(wn, None, cls=P if "." in P else "propagation." + P)
+                if b_ is not None and "walkers" in b_ and "fields" in b_:
+                    w_old, shifted = b_["walkers"], b_["fields"]
+                else:
+                    w_old = pos[1] if len(pos) > 1 else None
+                    shifted = pos[2] if len(pos) > 2 else None
                 new_ok = True
                 # force bias from the same (old) walkers
                 fbs = [x for x in subterms(shifted) if x.op == "call" and x.args[0].op == "attr"
